@@ -81,7 +81,9 @@ CLAIMED = {
     "C06": dict(
         text="Unbounded theorems (Props/C06.v): on a Bezier knot vector the Cox-de Boor basis is the Bernstein basis (closed "
              "form, every degree); the model's elevation matrix preserves the curve at every u for one step and for t steps, "
-             "scalar and vector-valued control points; a reduction accepted under tolerance t certifies error <= t. Decided "
+             "scalar and vector-valued control points; degree_decrease UNDOES degree_increase exactly on Bezier curves (same control "
+             "points and vector, zero error, accepted under every tolerance); a reduction accepted under tolerance t certifies "
+             "error <= t. Decided "
              "per generated case inside Coq: degree +t, every distinct knot's multiplicity +t, exact function equality "
              "(oracle) for Bezier, multi-span, repeated-knot, full-multiplicity and rational curves, method and setter form; "
              "t <= 0 refused; elevate-then-reduce restores the curve exactly (tuple equality); generic reduction refused "
@@ -195,8 +197,10 @@ CLAIMED = {
              "projection onto a refinement is exact (left inverse). Model tied by exact differential execution.",
         design="7/C13",
         technique="Coq proof (certificates of the model's equality test; union refinement; exact projection) + correspondence and exact function oracle by vm_compute",
-        note="PART: 'same function => True' (completeness) needs linear independence of B-splines and is decided by the "
-             "oracle only; symmetry and reflexivity of the model's test are checked per case, not proved. Rational operands: "
+        note="Also proved (Props/C13.v): the test is reflexive; if B is A with knots inserted then A == B and B == A are both "
+             "True (separated knots; given the model's inverse certificates). PART: 'same function => True' in general "
+             "(completeness) needs linear independence of B-splines and is decided by the oracle only; invariance under degree "
+             "elevation is decided per case. Rational operands: "
              "the library's weighted projection is lossy (K1) - kept out of the stream."),
     "C14": dict(
         text="Decided per generated case inside Coq: a curve with control points in general position (its own minimal "
